@@ -7,6 +7,7 @@ use crate::{
     search_result::SearchResult,
     story::Story,
     story_error::StoryError,
+    story_state::StoryState,
     value_type::ValueType,
 };
 use std::rc::Rc;
@@ -68,9 +69,12 @@ impl Story {
     ) -> Result<(), StoryError> {
         self.if_async_we_cant("call ChoosePathString right now")?;
 
-        // Refuse an unknown path before touching any state.
+        // Refuse an unknown path or unusable arguments before touching any state.
         let target_path = Path::new_with_components_string(Some(path));
         Story::pointer_at_path(&self.main_content_container, &target_path)?;
+        if let Some(args) = args {
+            StoryState::check_arguments(args)?;
+        }
 
         if reset_call_stack {
             self.reset_callstack()?;
@@ -144,6 +148,11 @@ impl Story {
             e.push('\'');
 
             return Err(StoryError::BadArgument(e));
+        }
+
+        // Refuse unusable arguments before touching any state
+        if let Some(args) = args {
+            StoryState::check_arguments(args)?;
         }
 
         // Snapshot the output stream
